@@ -17,6 +17,8 @@ import (
 	"verifharness/vkit"
 )
 
+const quietPatience = 10 * time.Second
+
 type world struct {
 	t     *testing.T
 	env   *vkit.Env
